@@ -287,7 +287,10 @@ def mutate(root, how):
 
 
 TEXTS = ["-(4! * x) + y", "7 - -(2!)", "-(3!)", "-(3^2 * x)", "3 / -((x + 1) * y)", "(x^y)^z", "3.0x + 2.0", "7.0^30 * y - 2", "1.0", "2.50x^2.0", "4x + 2y^3", "-(2y + 3)^2", "sgn(x - 7)", "3!", "5! + x", "4(x + 2) + 7y", "x = 2y + 1", "2x * 3x * x", "0.5x^2 - -3", "(x + 1)(x - 1)",
-         "x + x + x", "2 * 2 * 2", "-x - -x", "-5!", "12345678901234567891x", "x^2^3", "2^(x^y)", "((x))", "7 / (x / y) / z"]
+         "x + x + x", "2 * 2 * 2", "-x - -x", "-5!", "12345678901234567891x", "x^2^3", "2^(x^y)", "((x))", "7 / (x / y) / z",
+         # constants with more digits than any rounding would keep, tiny and huge magnitudes: a copy holds the very same number
+         "0.1234567890123456x + 0.30000000000000004", "y / 0.00000000000025 + 0.3333333333333333", "0.000000000000000123x^2", "123456789.12345678y - 0.9999999999999999",
+         "1234567890123.4567 * x", "0.00000000000000000000000000001x + 1"]
 
 
 def domain(ctx):
